@@ -15,7 +15,9 @@
 (* the model, the evidence dictionaries and the virtual-evidence CPDs      *)
 (* passed in are unchanged.                                                *)
 (* Question kinds: "query" (posterior table), "map" (MAP set), "do"        *)
-(* (truncated factorisation, single do-variable, default adjustment).      *)
+(* (truncated factorisation, single do-variable, default adjustment),      *)
+(* "calibrate" / "max_calibrate" (engine operations of BeliefPropagation), *)
+(* "sample" (a seeded call on a shared BayesianModelSampling engine).      *)
 (***************************************************************************)
 EXTENDS BNLib, Json, IOUtils
 CONSTANTS HLen
@@ -27,14 +29,19 @@ N == BNodes(b)
 J == JointTable(b)
 
 VirtW2(q) == [v \in DOMAIN q.virt |-> q.virt[v].w]
+EngineOps == {"calibrate", "max_calibrate"}      \* operations on the engine that answer nothing
 Defined(q) ==
-    IF q.t = "do" THEN TRUE
+    IF q.t = "do" \/ q.t \in EngineOps THEN TRUE
     ELSE PostTot(b, J, q.ev, VirtW2(q)) > 0
 TruncWeight(S, a) == FoldSet(LAMBDA v, acc : acc * CPDNum(b, v, a), 1, N \ S)
 DoNum(Q, qa, s) == SumOver({a \in Assigns(b, N) : Agrees(a, qa) /\ Agrees(a, s)}, LAMBDA a : TruncWeight(DOMAIN s, a))
 Answer(q) ==
     LET Q == ToSet(q.q) IN
-    IF q.t = "do"
+    \* an engine operation has no answer; a seeded sampling call answers what a FRESH engine answers to the same call
+    \* (the drawn values are specified by Trace_C07; here only: the answer is a function of model and question)
+    IF q.t \in EngineOps THEN [kind |-> "none", tot |-> 0, rows |-> {}, maps |-> {}]
+    ELSE IF q.t = "sample" THEN [kind |-> "as_fresh_engine", tot |-> 0, rows |-> {}, maps |-> {}]
+    ELSE IF q.t = "do"
     THEN [kind |-> "table", tot |-> DoNum({}, <<>>, q.do),
           rows |-> {[a |-> qa, w |-> DoNum(Q, qa, q.do)] : qa \in Assigns(b, Q)}, maps |-> {}]
     ELSE IF q.t = "map"
